@@ -481,7 +481,7 @@ func runC18(c *Ctx) {
 	id := func(p string) string { n++; return fmt.Sprintf("%s%d", p, n) }
 	seedOf := func() uint32 { return uint32(1 + r.Intn(1<<31)) }
 	patterns := []string{"", "tmp", "a*", "*b", "pre*suf", "x*y*z", "**", "*", "no star.txt", "a.*.go"}
-	dirs := []string{"/", "/w", "/w/sub", "w", "/w/", "/w/../w", ""}
+	dirs := []string{"/", "/w", "/w/sub", "w", "/w/", "/w/../w", "", ".", "./", "w/.."}
 	preList := func(k int, kindCh byte, mixed bool) string {
 		var it []string
 		for i := 1; i <= k; i++ {
